@@ -52,12 +52,35 @@ def guarded(g, node, sub, keytext):
         if isinstance(a, ast.Try) and any(sub_in(sub, b) for b in a.body) and \
                 any(h.type is None or 'KeyError' in norm(h.type) or norm(h.type) in ('Exception', 'LookupError') for h in a.handlers):
             return 'try/except KeyError'
+    # short circuit: an earlier conjunct of the same `and` (or an earlier `if` of the same comprehension) tests the membership
+    pos_txt = ('%s in self' % keytext, '%s in self.keys()' % keytext)
+    for a in _anc(sub):
+        if isinstance(a, ast.BoolOp) and isinstance(a.op, ast.And):
+            for v in a.values:
+                if sub_in(sub, v):
+                    break
+                if norm(v) in pos_txt:
+                    return 'earlier conjunct `%s`' % norm(v)
+        if isinstance(a, ast.comprehension):
+            for c_ in a.ifs:
+                if sub_in(sub, c_):
+                    break
+                if norm(c_) in pos_txt:
+                    return 'comprehension condition `%s`' % norm(c_)
+        if isinstance(a, (ast.DictComp, ast.ListComp, ast.SetComp, ast.GeneratorExp)):
+            # the element expression runs only when every condition holds
+            if any(norm(c_) in pos_txt or (isinstance(c_, ast.BoolOp) and isinstance(c_.op, ast.And) and any(norm(v) in pos_txt for v in c_.values))
+                   for gen in a.generators for c_ in gen.ifs) and not any(sub_in(sub, c_) for gen in a.generators for c_ in gen.ifs):
+                return 'comprehension condition'
+        if isinstance(a, ast.IfExp) and sub_in(sub, a.body) and norm(a.test) in pos_txt:
+            return 'conditional expression on `%s`' % norm(a.test)
     # membership test whose "present" outcome is the only way to reach the node
     for t in g.nodes:
         if t.kind != 'test' or not g.dominates(t.id, node.id) or t.id == node.id:
             continue
         txt = norm(t.ast)
-        pos = txt in ('%s in self' % keytext, '%s in self.keys()' % keytext)
+        pos = txt in ('%s in self' % keytext, '%s in self.keys()' % keytext) or (
+            isinstance(t.ast, ast.BoolOp) and isinstance(t.ast.op, ast.And) and any(norm(v) in pos_txt for v in t.ast.values))
         neg = txt in ('%s not in self' % keytext, 'not %s in self' % keytext)
         if not (pos or neg):
             continue
@@ -920,7 +943,9 @@ def r4_size_column(rep, src):
         if not wcalls:
             raise AnalysisError('%s: no call of _get_size_field_length' % pw.site)
         single_tests = [n_ for n_ in gw.nodes if n_.kind == 'test' and (("hasattr(" in norm(n_.ast) and "'keys'" in norm(n_.ast)) or 'isinstance(' in norm(n_.ast))]
-        handles_mapping = any(("hasattr(" in norm(t_) and "'keys'" in norm(t_)) or 'isinstance(' in norm(t_) for t_ in ast.walk(fin) if isinstance(t_, (ast.If, ast.IfExp)) for t_ in [t_.test])
+        in_comp = all(any(isinstance(a_, (ast.DictComp, ast.ListComp, ast.GeneratorExp, ast.SetComp)) and any(
+            ("hasattr(" in norm(c_) and "'keys'" in norm(c_)) or 'isinstance(' in norm(c_) for gen in a_.generators for c_ in gen.ifs) for a_ in _anc(c)) for c in wcalls)
+        handles_mapping = in_comp or any(("hasattr(" in norm(t_) and "'keys'" in norm(t_)) or 'isinstance(' in norm(t_) for t_ in ast.walk(fin) if isinstance(t_, (ast.If, ast.IfExp)) for t_ in [t_.test])
         okw = all(any(gw.dominates(t_.id, gw.node_for(c).id) for t_ in single_tests) for c in wcalls) or handles_mapping
         if okw:
             rep.ok('C12.R4', pw.site, 'a field holding a single record gets no column width', 'the width computation is skipped for (or handles) a mapping value')
